@@ -312,6 +312,76 @@ def check_schemaless_results_independent(rep):
                              '%s before' % (hx, n2, look(c)[1][:80].replace('\n', ' '), before[1][:80].replace('\n', ' ')), case)
 
 
+def check_mutable_inputs(rep):
+    """value objects built from a caller's mutable buffer (bytearray) do not keep it: after the buffer is refilled or changed,
+    every object built from it - by the constructor, clone(), the native decoder (scalars and record members), the BER
+    encoder's value-plus-schema path - reads, hashes, compares and encodes as it did; and two objects built from the same
+    buffer at different times are independent"""
+    from pyasn1.codec.native import decoder as ndec
+    from pyasn1.codec.ber import encoder as benc
+    from pyasn1.type import namedtype, char
+    rec_t = univ.Sequence(componentType=namedtype.NamedTypes(namedtype.NamedType('o', univ.OctetString()),
+                                                              namedtype.NamedType('a', univ.Any()),
+                                                              namedtype.NamedType('u', char.UTF8String())))
+    makers = [
+        ('OctetString(buf)', lambda buf: univ.OctetString(buf)),
+        ('OctetString().clone(buf)', lambda buf: univ.OctetString().clone(buf)),
+        ('Any(buf)', lambda buf: univ.Any(buf)),
+        ('UTF8String().clone(buf)', lambda buf: char.UTF8String().clone(buf)),
+        ('OctetString(b"").subtype(value=buf)', lambda buf: univ.OctetString(b'').subtype(buf)),
+        ('native OctetString', lambda buf: ndec.decode(buf, asn1Spec=univ.OctetString())),
+        ('native Any', lambda buf: ndec.decode(buf, asn1Spec=univ.Any())),
+        ('native record', lambda buf: ndec.decode({'o': buf, 'a': buf, 'u': buf}, asn1Spec=rec_t)),
+        ('seqof.append(buf)', lambda buf: (lambda s: (s.append(buf), s)[1])(univ.SequenceOf(componentType=univ.OctetString()))),
+    ]
+
+    def look(o):
+        try:
+            return benc.encode(o).hex()
+        except Exception as e:  # noqa
+            return 'unencodable:' + type(e).__name__
+    for name, mk in makers:
+        rep.evaluations += 1
+        rep.count('mutable-inputs')
+        case = {'kind': 'mutable-input', 'maker': name}
+        buf = bytearray(b'\x04\x03abc')
+        try:
+            first = mk(buf)
+        except Exception as e:  # noqa
+            continue            # the form is not accepted at all: nothing to keep
+        before = look(first)
+        try:
+            h0 = hash(first) if isinstance(first, pbase.SimpleAsn1Type) else None
+        except Exception as e:  # noqa
+            rep.fail('mutable-input-unhashable', '%s: hash() raised %s' % (name, type(e).__name__), case)
+            h0 = None
+        buf[2:] = b'XYZ'
+        second = mk(buf)
+        after = look(first)
+        if after != before:
+            rep.fail('value-shares-callers-buffer', '%s: the object read %s, and %s after the caller changed the buffer it was built from' % (
+                name, before, after), case)
+            continue
+        if look(second) == before:
+            rep.fail('mutable-input-stale', '%s: an object built after the buffer changed reads like the earlier one' % name, case)
+        buf[:] = b'\x05\x00'
+        if look(first) != before or (h0 is not None and hash(first) != h0):
+            rep.fail('value-shares-callers-buffer', '%s: the object changed when the buffer was refilled' % name, case)
+    # value + schema encoding of a bytearray: the octets are those of the moment of the call
+    buf = bytearray(b'abc')
+    for cdc in ('ber', 'cer', 'der'):
+        try:
+            e1 = codec.ENC[cdc].encode(buf, asn1Spec=univ.OctetString())
+            buf2 = bytearray(b'abc')
+            e2 = codec.ENC[cdc].encode(bytes(buf2), asn1Spec=univ.OctetString())
+        except Exception:  # noqa
+            continue
+        rep.count('mutable-inputs')
+        if e1 != e2:
+            rep.fail('bytearray-vs-bytes-encoding', '%s encoding of a bytearray %s differs from that of the same bytes %s' % (cdc, e1.hex(), e2.hex()),
+                     {'kind': 'mutable-input', 'maker': cdc + ' value+schema'})
+
+
 def history(rep, cases, rng, log=False):
     """a sequence of calls sharing schema objects and codec singletons vs each call alone on fresh objects"""
     steps = []
@@ -558,6 +628,7 @@ def run(rep, tier, seed):
     fixed_histories(rep)
     cross_call_forms(rep)
     check_schemaless_results_independent(rep)
+    check_mutable_inputs(rep)
     for i in range(60 if tier == 'quick' else 3000):
         history(rep, rng.sample(pool, min(len(pool), 6)), rng)
     for i in range(60 if tier == 'quick' else 3000):
